@@ -7,16 +7,19 @@
    returns data that the inverse transform accepts, and it never reads or writes outside the memory of its input and
    output objects.
 
-   All theorems are about Model/Transform.v, the model of the repaired src/transform.c; its six tables, the three decode
-   table sizes, BUFFER_MALLOC_MAX and _dispatch_transform_utf8_length are the generated Gen_transform.  A data object is
-   ANY list of non-empty regions; `flat` is the concatenation.  Proved at full strength: the three Base round trips and
-   the UTF round trip for every input and every split on BOTH sides; split independence; for arbitrary input the
-   decoders (Base and UTF, both directions) compute a function of the concatenation only and never reach the OOB
-   outcome.  Hypotheses are the honest ones: sizes below 2^60 and, for UTF, the size guard of transform.c:158.
-   "NULL or accepted by the inverse" is proved for arbitrary input of every primary pair (NONE<->Base x3, UTF-8<->UTF-16 x2
-   byte orders); all nine Base -> Base pairs are covered by C20_base_recode_all; UTF_ANY is reduced to the explicit
-   formats by C20_utf_any_detect.  NOT covered by a theorem (model + correspondence only): UTF-16 -> UTF-16 (decode to
-   UTF-8, then encode), because the region sizes of the intermediate object enter the size guard of transform.c:158. *)
+   All theorems are about Model/Transform.v, the model of the repaired src/transform.c (ten fix: commits); its six tables,
+   the three decode table sizes, BUFFER_MALLOC_MAX and _dispatch_transform_utf8_length are the generated Gen_transform.
+   A data object is ANY list of non-empty regions of ANY sizes; `flat` is the concatenation.  Hypotheses: no empty
+   region (data.c never builds one), total size below 2^60 (2^57 / 2^58 where the output size must again be below 2^60).
+   There is NO hypothesis on region sizes any more: an earlier version assumed the size test of
+   _dispatch_transform_buffer_new (BUFFER_MALLOC_MAX) to pass and thereby hid a genuine violation (a 90 MB UTF-16 region
+   was converted to an object whose 60 MB first region the inverse rejected; UTF-8 regions above 52428799 bytes were
+   rejected outright); that is repaired in /repo (commit 9486a1f: the size hint is clamped) and the model follows it.
+   Proved at full strength: the three Base round trips and the UTF round trip for every input and every split on both
+   sides, also with the inverse applied to THE RETURNED OBJECT; split independence; for arbitrary input every primary
+   pair computes a function of the concatenation only, never reaches the OOB outcome, and what it returns (the returned
+   object itself, and any re-split of it) is accepted by the inverse; all nine Base -> Base pairs; UTF_ANY detection.
+   NOT covered by a theorem (model + correspondence only): UTF-16 -> UTF-16 (decode to UTF-8, then encode). *)
 From Coq Require Import ZArith List Bool Lia.
 From Verif Require Import Word Gen_transform Transform Transform_proofs Transform32_proofs TransformUtf_proofs.
 Import ListNotations.
@@ -93,6 +96,12 @@ Theorem C20_base32hex_decode_total : forall d, wf_data d ->
 Proof. exact base32hex_decode_total. Qed.
 Print Assumptions C20_base32hex_decode_total.
 
+(* "NULL or accepted by the inverse" about the RETURNED object of a Base decoder, no premise on that object *)
+Theorem C20_base_decode_returned_accepted : forall f, (f = 5 \/ f = 6 \/ f = 7) ->
+  forall d t, wf_data d -> transform d f F_NONE = Ok t -> exists e, transform t F_NONE f = Ok e.
+Proof. exact base_decode_returned_accepted. Qed.
+Print Assumptions C20_base_decode_returned_accepted.
+
 (* every ordered pair of Base32 / Base32Hex / Base64 (decode, then encode the decoder's multi-region object): arbitrary
    input and split; result = encode(decode(concatenation)); NULL exactly when the decoder's fold rejects; never OOB *)
 Theorem C20_base_recode_all : forall fi fo, (fi = 5 \/ fi = 6 \/ fi = 7) -> (fo = 5 \/ fo = 6 \/ fo = 7) ->
@@ -109,8 +118,7 @@ Print Assumptions C20_base_recode_all.
 (* every sequence cps of Unicode scalar values, every split d of its UTF-8 encoding, either byte order, every split d'
    of the UTF-16 text produced.  BOM handling, exactly: the encoder writes its own BOM and drops ONE leading U+FEFF of
    the text; the decoder drops the BOM it finds; _dispatch_transform_to_utf8_without_bom drops one more leading U+FEFF
-   if the text had two.  wf_utf = no empty region, size < 2^60, and the explicit size guard of transform.c:158
-   (2*|region|+2 <= BUFFER_MALLOC_MAX for UTF-8 input, |region|+6 <= BUFFER_MALLOC_MAX for UTF-16 input). *)
+   if the text had two.  wf_utf = no empty region, total size < 2^60; regions of any size. *)
 Theorem C20_utf_roundtrip_all_splits : forall le cps d,
   Forall scalar cps -> flat d = utf8_of cps -> wf_utf d ->
   exists e, transform d F_UTF8 (fmt16 le) = Ok e /\
@@ -120,8 +128,17 @@ Theorem C20_utf_roundtrip_all_splits : forall le cps d,
 Proof. exact utf_roundtrip_all_splits. Qed.
 Print Assumptions C20_utf_roundtrip_all_splits.
 
-(* arbitrary bytes, arbitrary split: the result is a function of the concatenation (to16_flat / from16_flat are folds
-   over the flat string), NULL exactly when that fold rejects, and the OOB outcome is unreachable *)
+(* the same with the inverse applied to the RETURNED object e (which is well formed) *)
+Theorem C20_utf_roundtrip_returned : forall le cps d,
+  Forall scalar cps -> flat d = utf8_of cps -> wf_utf d -> dsize d < 2 ^ 57 ->
+  exists e, transform d F_UTF8 (fmt16 le) = Ok e /\ wf_utf e /\
+            flat_res (transform e (fmt16 le) F_UTF8) = Ok (utf8_of (strip1 (strip1 cps))).
+Proof. exact utf_roundtrip_returned. Qed.
+Print Assumptions C20_utf_roundtrip_returned.
+
+(* arbitrary bytes, arbitrary regions of arbitrary sizes: the result is a function of the concatenation (to16_flat /
+   from16_flat are folds over the flat string), NULL exactly when that fold rejects, and the OOB outcome is
+   unreachable (never reads or writes outside its objects): no size guard *)
 Theorem C20_utf8_to_utf16_total : forall le d, wf_utf d ->
   flat_res (transform d F_UTF8 (fmt16 le)) =
     (if dsize d =? 0 then Ok (flat d) else match to16_flat le (flat d) with Some x => Ok x | None => Null end) /\
@@ -137,8 +154,27 @@ Theorem C20_utf16_to_utf8_total : forall le d, wf_utf d ->
 Proof. exact utf16_to_utf8_total. Qed.
 Print Assumptions C20_utf16_to_utf8_total.
 
-(* "NULL or accepted by the inverse" for ARBITRARY input bytes and splits: whatever a UTF transform returns, the inverse
-   transform accepts, however the returned text is split *)
+(* the returned objects are well formed, so the theorems below apply to them *)
+Theorem C20_utf8_to_utf16_output_wf : forall le d e, wf_utf d -> dsize d < 2 ^ 57 ->
+  transform d F_UTF8 (fmt16 le) = Ok e -> wf_utf e.
+Proof. exact utf8_to_utf16_output_wf. Qed.
+Print Assumptions C20_utf8_to_utf16_output_wf.
+Theorem C20_utf16_to_utf8_output_wf : forall le d e, wf_utf d -> dsize d < 2 ^ 58 ->
+  transform d (fmt16 le) F_UTF8 = Ok e -> wf_utf e.
+Proof. exact utf16_to_utf8_output_wf. Qed.
+Print Assumptions C20_utf16_to_utf8_output_wf.
+
+(* "NULL or accepted by the inverse", ARBITRARY input: the object a UTF transform returns is accepted by the inverse *)
+Theorem C20_utf8_to_utf16_returned_accepted : forall le d e, wf_utf d -> dsize d < 2 ^ 57 ->
+  transform d F_UTF8 (fmt16 le) = Ok e -> exists t, transform e (fmt16 le) F_UTF8 = Ok t.
+Proof. exact utf8_to_utf16_returned_accepted. Qed.
+Print Assumptions C20_utf8_to_utf16_returned_accepted.
+Theorem C20_utf16_to_utf8_returned_accepted : forall le d e, wf_utf d -> dsize d < 2 ^ 58 -> bytes (flat d) ->
+  transform d (fmt16 le) F_UTF8 = Ok e -> exists t, transform e F_UTF8 (fmt16 le) = Ok t.
+Proof. exact utf16_to_utf8_returned_accepted. Qed.
+Print Assumptions C20_utf16_to_utf8_returned_accepted.
+
+(* ... and so is every re-split of the returned text *)
 Theorem C20_utf8_to_utf16_inverse_accepts : forall le d e, wf_utf d ->
   transform d F_UTF8 (fmt16 le) = Ok e ->
   forall d', flat d' = flat e -> wf_utf d' -> exists t, transform d' (fmt16 le) F_UTF8 = Ok t.
@@ -184,11 +220,9 @@ Proof.
     - unfold bytes. cbn [flat concat app]. repeat (apply Forall_cons; [unfold byte; lia|]). apply Forall_nil.
     - vm_compute. reflexivity. }
   split.
-  { unfold wf_utf. split; [|split; [|split]].
+  { unfold wf_utf. split.
     - repeat (apply Forall_cons; [discriminate|]). apply Forall_nil.
-    - vm_compute. reflexivity.
-    - repeat (apply Forall_cons; [unfold guard16; vm_compute; discriminate|]). apply Forall_nil.
-    - repeat (apply Forall_cons; [unfold guard8; vm_compute; discriminate|]). apply Forall_nil. }
+    - vm_compute. reflexivity. }
   split.
   { repeat (apply Forall_cons; [reflexivity|]). apply Forall_nil. }
   repeat split; vm_compute; reflexivity.
